@@ -32,6 +32,10 @@ repairs and as the reproduction of the recorded finding.
                       invocation, with the polls of the runtime and of two INVOKE subscribers parked: nobody may be
                       released before the renderer of *this* invocation is in place (else a subscriber renders the previous
                       invocation's event again, or gets 500 on the first one).
+  register-vs-close   (regression for seeded change C03-c) the registration of an internal extension is held while its agent
+                      object is being constructed; the runtime polls, initialisation completes (registration closed, the
+                      agents barrier sized without it) and an invocation is delivered; then the registration continues:
+                      it must be refused, and the invocation must not wait for that extension.
 """
 from scen import Scn
 
@@ -210,12 +214,35 @@ def dispatch_held(sid, timeout_ms=2000):
     return s.done()
 
 
+def register_vs_close(sid, timeout_ms=2000):
+    s = Scn(sid, ext=[], timeout_ms=timeout_ms, opWaitMs=8000)
+    s.meta(family=FAMILY, schedule="register-vs-close")
+    s.init()
+    s.await_exec(kind="rt")
+    s.hold("core.newInternalAgent", 1)
+    reg = s.call("int:i1", "register", async_=True, events=["INVOKE"])
+    s.until_held("core.newInternalAgent")
+    tags = {"rt": s.poll("rt")}
+    s.until_ev("Tel", key="kind", val="InitReport")
+    it = s.invoke(size=5, seed=7)
+    s.wait(tags["rt"])
+    s.release("core.newInternalAgent")
+    s.wait(reg)
+    s.call("int:i1", "next")                      # whatever it was told, it is not a party of this invocation
+    s.call("rt", "response", id="current", body="first")
+    tags["rt"] = s.poll("rt")
+    s.wait(it)
+    s.round(tags, {})
+    return s.done()
+
+
 def scenarios(prefix, which=("watch-late-cancel", "clear-vs-invoke", "ghost-invoke")):
     out = []
     mk = {"watch-late-cancel": watch_late_cancel, "clear-vs-invoke": clear_vs_invoke, "ghost-invoke": ghost_invoke,
           "double-reset": double_reset,
           "late-release": late_release,
           "dispatch-held": dispatch_held,
+          "register-vs-close": register_vs_close,
           "stale-error-in-flight": lambda sid: stale_in_flight(sid, "error"),
           "stale-response-in-flight": lambda sid: stale_in_flight(sid, "response")}
     for i, w in enumerate(which):
